@@ -204,8 +204,8 @@ func Build(s Spec) []byte {
 
 func buildJWS(s Spec) []byte {
 	prot := map[string]any{
-		"alg": jwsAlg(s.Key.Public()),
-		"cty": s.ContentType,
+		"alg":                          jwsAlg(s.Key.Public()),
+		"cty":                          s.ContentType,
 		"io.cncf.notary.signingScheme": s.Scheme,
 	}
 	crit := []string{}
